@@ -21,7 +21,7 @@ theorem J_congr (s s' : St) (h1 : s'.log = s.log) (h2 : s'.issuers = s.issuers) 
 /-- writes that leave log, issuers and counters alone -/
 def neutral : Step → Bool
   | .addCert .. | .tick _ | .putCert _ | .delCert _ | .putRevoked .. | .delRevoked _ | .delCRL _ | .delDelta _
-  | .putCfg _ => true
+  | .putCfg _ | .noteSerial .. => true
   | _ => false
 
 theorem neutral_step (s : St) (st : Step) (h : neutral st = true) :
@@ -201,6 +201,9 @@ theorem revokeProg_shape (s : St) (k : Nat) (b : Bool) (o1 o2 : List Nat) :
     · split
       · exact ⟨[], by simp, Or.inl rfl⟩
       · simp only
+        by_cases hcol : collides s k = true
+        · simp only [hcol, ↓reduceIte]; exact ⟨_, hpre, Or.inl rfl⟩
+        simp only [hcol, Bool.false_eq_true, ↓reduceIte]
         split
         · split
           · exact ⟨_, hpre, Or.inl rfl⟩
@@ -216,50 +219,64 @@ theorem revokeProg_shape (s : St) (k : Nat) (b : Bool) (o1 o2 : List Nat) :
             · exact ⟨_, hrec, Or.inl rfl⟩
             · exact ⟨_, hrec, Or.inr rfl⟩
 
+theorem J_addIssuer (s : St) (o1 o2 : List Nat) (h1 : o1.Nodup) (h2 : o2.Nodup) (hj : J s) :
+    J (applySteps s (addIssuerProg s o1 o2).1) := by
+  simp only [addIssuerProg]
+  rw [applySteps_append, applySteps_append]
+  have hs1 : J (applySteps s [Step.addIssuer (s.nIssuers + 1)]) := by
+    refine ⟨hj.inc, fun e he hi => ?_, fun e he => ?_, fun i hi => ?_⟩
+    · have hi' : e.issuer ∈ s.issuers ∨ e.issuer = s.nIssuers + 1 := by
+        simpa [applySteps, applyStep] using hi
+      rcases hi' with h | h
+      · exact hj.bound e he h
+      · have := hj.evIss e he; omega
+    · have := hj.evIss e he
+      show e.issuer ≤ s.nIssuers + 1
+      omega
+    · have hi' : i ∈ s.issuers ∨ i = s.nIssuers + 1 := by simpa [applySteps, applyStep] using hi
+      show i ≤ s.nIssuers + 1
+      rcases hi' with h | h
+      · have := hj.issLe i h; omega
+      · omega
+  generalize hg : applySteps s [Step.addIssuer (s.nIssuers + 1)] = s1 at hs1
+  have hs1' : s1 = applyStep s (Step.addIssuer (s.nIssuers + 1)) := hg.symm
+  have hs2 : J (applySteps s1 (if s.dflt.isNone = true then
+      [Step.putCounters (s.counters.filter fun p => decide (p.1 ∈ s.issuers))] else [])) := by
+    split
+    · refine ⟨hs1.inc, fun e he hi => ?_, hs1.evIss, hs1.issLe⟩
+      have hlog : e ∈ s.log := by rw [hs1'] at he; exact he
+      have hi' : e.issuer ∈ s.issuers ∨ e.issuer = s.nIssuers + 1 := by
+        rw [hs1'] at hi; simpa [applySteps, applyStep] using hi
+      rcases hi' with h | h
+      · have hb := hj.bound e hlog h
+        have : counter (applySteps s1 [Step.putCounters (s.counters.filter fun p => decide (p.1 ∈ s.issuers))]) e.issuer
+            = counter s e.issuer := by
+          simp only [applySteps, List.foldl_cons, List.foldl_nil, applyStep, counter]
+          rw [lookup_filter_keep s.counters (fun i => decide (i ∈ s.issuers)) e.issuer (by simpa using h)]
+        rw [this]; exact hb
+      · have := hj.evIss e hlog; omega
+    · exact hs1
+  subst hs1'
+  exact J_rebuild _ true o1 o2 h1 h2 hs2
+
 theorem J_exec (s : St) (r : Run) (hc : r.cut = none) (h1 : r.o1.Nodup) (h2 : r.o2.Nodup) (hj : J s) : J (exec s r) := by
   obtain ⟨op, o1, o2, cut⟩ := r
   simp only at hc h1 h2
   subst hc
   simp only [exec, cutSteps]
   cases op with
-  | addIssuer =>
-    simp only [prog, addIssuerProg]
-    rw [applySteps_append, applySteps_append]
-    have hs1 : J (applySteps s [Step.addIssuer (s.nIssuers + 1)]) := by
-      refine ⟨hj.inc, fun e he hi => ?_, fun e he => ?_, fun i hi => ?_⟩
-      · have hi' : e.issuer ∈ s.issuers ∨ e.issuer = s.nIssuers + 1 := by
-          simpa [applySteps, applyStep] using hi
-        rcases hi' with h | h
-        · exact hj.bound e he h
-        · have := hj.evIss e he; omega
-      · have := hj.evIss e he
-        show e.issuer ≤ s.nIssuers + 1
-        omega
-      · have hi' : i ∈ s.issuers ∨ i = s.nIssuers + 1 := by simpa [applySteps, applyStep] using hi
-        show i ≤ s.nIssuers + 1
-        rcases hi' with h | h
-        · have := hj.issLe i h; omega
-        · omega
-    generalize hg : applySteps s [Step.addIssuer (s.nIssuers + 1)] = s1 at hs1
-    have hs1' : s1 = applyStep s (Step.addIssuer (s.nIssuers + 1)) := hg.symm
-    have hs2 : J (applySteps s1 (if s.dflt.isNone = true then
-        [Step.putCounters (s.counters.filter fun p => decide (p.1 ∈ s.issuers))] else [])) := by
+  | addIssuer => exact J_addIssuer s o1 o2 h1 h2 hj
+  | importIssuer col =>
+    cases col with
+    | none => exact J_addIssuer s o1 o2 h1 h2 hj
+    | some k =>
+      simp only [prog, importIssuerProg]
       split
-      · refine ⟨hs1.inc, fun e he hi => ?_, hs1.evIss, hs1.issLe⟩
-        have hlog : e ∈ s.log := by rw [hs1'] at he; exact he
-        have hi' : e.issuer ∈ s.issuers ∨ e.issuer = s.nIssuers + 1 := by
-          rw [hs1'] at hi; simpa [applySteps, applyStep] using hi
-        rcases hi' with h | h
-        · have hb := hj.bound e hlog h
-          have : counter (applySteps s1 [Step.putCounters (s.counters.filter fun p => decide (p.1 ∈ s.issuers))]) e.issuer
-              = counter s e.issuer := by
-            simp only [applySteps, List.foldl_cons, List.foldl_nil, applyStep, counter]
-            rw [lookup_filter_keep s.counters (fun i => decide (i ∈ s.issuers)) e.issuer (by simpa using h)]
-          rw [this]; exact hb
-        · have := hj.evIss e hlog; omega
-      · exact hs1
-    subst hs1'
-    exact J_rebuild _ true o1 o2 h1 h2 hs2
+      · exact hj
+      · rw [applySteps_cons]
+        exact J_addIssuer _ o1 o2 h1 h2
+          (J_neutral_steps [Step.noteSerial (s.nIssuers + 1) k] s
+            (by intro st h; simp only [List.mem_singleton] at h; subst h; rfl) hj)
   | delIssuer i =>
     simp only [prog, delIssuerProg]
     split
@@ -279,7 +296,7 @@ theorem J_exec (s : St) (r : Run) (hc : r.cut = none) (h1 : r.o1.Nodup) (h2 : r.
     split
     · exact hj
     · exact J_neutral_steps _ s (by intro st h; simp only [List.mem_singleton] at h; subst h; rfl) hj
-  | craft i =>
+  | craft i v =>
     simp only [prog, craftProg]
     split
     · exact hj
